@@ -536,4 +536,31 @@ theorem reach_runActs (cfg : Cfg) (sh0 : Shared) (n : Nat) (as : List Act) (s s'
     | none => rw [hs] at hr; cases hr
     | some s1 => rw [hs] at hr; exact ih s1 (Reach.step s s1 a h hs) hr
 
+/-! ### a goroutine running alone -/
+
+/-- the shared memory of a sequential-model shedder at clock reading `now`. -/
+def ofShedder (s : Shedder) (now : Nat) : Shared :=
+  { now := now, flying := s.flying, avg := s.avgFlying, overloadTime := s.overloadTime, dropped := s.droppedRecently,
+    passC := s.passCounter, rtC := s.rtCounter }
+
+def cfgOf (s : Shedder) : Cfg := ⟨s.cpuThreshold, s.windowScale⟩
+
+/-- one goroutine runs alone (no other goroutine, no clock tick) until its Allow has returned. -/
+def solo (cfg : Cfg) (inp : Inp) : Nat → Shared × Th → Shared × Th
+  | 0, r => r
+  | fuel + 1, r =>
+    if r.2.pc = .shed ∨ r.2.pc = .stamp then r
+    else match thStep cfg r.1 ⟨r.1, 0, 0⟩ r.2 inp with
+      | none => r
+      | some r' => solo cfg inp fuel r'
+
+/-- … until its Pass / Fail has returned. -/
+def soloResolve (cfg : Cfg) (inp : Inp) : Nat → Shared × Th → Shared × Th
+  | 0, r => r
+  | fuel + 1, r =>
+    if r.2.pc = .done then r
+    else match thStep cfg r.1 ⟨r.1, 0, 0⟩ r.2 inp with
+      | none => r
+      | some r' => soloResolve cfg inp fuel r'
+
 end GoZero.C02.Conc
